@@ -15,8 +15,8 @@ EXPLANATION = ("ac2poly, ac2rc, poly2ac, poly2rc, rc2poly, rc2ac (through the re
                "functions constrained only by their inverse-pair axioms, pi symbolic: that decides the plumbing (signs, factors 2 and pi/2, "
                "domain checks) for every argument.")
 BOUNDS = {
-    "quick": "order <= 3 real, <= 2 complex for the rational conversions; vector length <= 2 for lar / inverse-sine",
-    "thorough": "order <= 4 real, <= 3 complex; length <= 3 for lar / inverse-sine",
+    "quick": "order <= 4 real, <= 3 complex for the rational conversions; vector length <= 2 for lar / inverse-sine",
+    "thorough": "order <= 6 real, <= 4 complex; length <= 3 for lar / inverse-sine",
 }
 ASSUMPTIONS = ["floats modelled as exact reals", "domain: |k_i| < 1, r0 > 0 (or LEVINSON's own positive-definiteness path condition)",
                "tanh, arctanh, sin, arcsin: uninterpreted, with tanh(arctanh y)=y, arctanh(tanh y)=y, sin(arcsin y)=y (|y|<=1), "
@@ -226,7 +226,7 @@ def case_is(h, n, direction):
 def cases(tier, seed):
     q = tier == 'quick'
     out = []
-    for cplx, pmax in ((False, 3 if q else 4), (True, 2 if q else 3)):
+    for cplx, pmax in ((False, 4 if q else 6), (True, 3 if q else 4)):
         tag = 'cx' if cplx else 're'
         for p in range(1, pmax + 1):
             out.append(Case("rc-roundtrips:%s:p=%d" % (tag, p), case_rc_roundtrips, dict(p=p, cplx=cplx),
